@@ -943,6 +943,39 @@ def directed_histories():
                 out.append(run_history(json.loads(json.dumps(d)), [[12], [7]], ops=ops, driver="directed"))
             except BUILD_ERRORS:
                 pass
+    # ---- a PACKED child that is hidden because it reports zero columns / zero rows: its container's canvas depends on it although
+    #      nothing of it is drawn; it is then given content (and emptied again), with every frame held ----
+    one = ["Text", 1, "left", "space"]
+    for t1 in (2, 5):
+        empty = ["Text", 0, "left", "space"]
+        hidden = [["Columns", [empty, one], 1, ["pack", 0]], ["Columns", [one, empty], 0, [0, "pack"]], ["Columns", [empty], 0, ["pack"]],
+                  ["Columns", [empty, empty, one], 1, ["pack", "pack", 0]]]
+        descs = list(hidden) + [["Pile", [h, one]] for h in hidden] + [["AttrMap", h, 0, 1] for h in hidden] + [["Padding", h, "left", 1, 0, None] for h in hidden]
+        for d in descs:
+            def ops(w, t1=t1):
+                leafs = [i for i in w.attached() if w.meta[i][0] == "Text"]
+                s0, s1 = w.sizes[0], w.sizes[1]
+                seq = [["render", 0, s0, 1, 1], ["render", 0, s1, 0, 1]]
+                for tgt in leafs[:2]:
+                    seq += [["set_text", tgt, t1], ["render", 0, s0, 1, 1], ["rows", 0, s0, 0], ["set_text", tgt, 0], ["render", 0, s0, 1, 1], ["render", 0, s1, 0, 1]]
+                return seq + [["check"]]
+            try:
+                out.append(run_history(json.loads(json.dumps(d)), [[12], [7]], ops=ops, driver="directed-hidden"))
+            except BUILD_ERRORS:
+                pass
+    for outer in (["Pile", [["Pile", []], one]], ["Pile", [one, ["Pile", []]]], ["Pile", [["Pile", []]]], ["Columns", [["Pile", []], one], 1, ["pack", 0]],
+                  ["AttrMap", ["Pile", [["Pile", []], one]], 0, 1]):
+        def ops(w):
+            piles = [i for i in w.attached() if w.meta[i][0] == "Pile"]
+            inner = piles[-1]
+            s0, s1 = w.sizes[0], w.sizes[1]
+            return [["render", 0, s0, 1, 1], ["render", 0, s1, 0, 1], ["c_append", inner, ["Text", 2, "left", "space"], 0], ["render", 0, s0, 1, 1],
+                    ["rows", 0, s0, 0], ["c_delete", inner, 0], ["render", 0, s0, 1, 1], ["render", 0, s1, 0, 1], ["c_append", inner, ["Text", 3, "left", "space"], 0],
+                    ["render", 0, s1, 0, 1], ["render", 0, s0, 1, 1], ["check"]]
+        try:
+            out.append(run_history(json.loads(json.dumps(outer)), [[12], [7]], ops=ops, driver="directed-hidden"))
+        except BUILD_ERRORS:
+            pass
     # ---- garbage collection of an OLD canvas while a NEWER one for the same leaf key is cached: keep canvas A, change the leaf,
     #      render the same tree under another ancestor key (focus flag / one more row) so that the leaf is cached again under its old
     #      key, keep B, release A (+ gc), change the leaf again, render: the entry made for B must survive A's death ----
